@@ -77,7 +77,7 @@ end
 /-! ## the domain, now with CachedSource -/
 mutual
 def Src.ModeHypC : Src → Prop
-  | .sms t _ map _ inner _ => inner = none ∧ IsAscii t ∧ t.length ≤ USIZE_MAX ∧ sortedFrom 1 0 (decode map.mappings)
+  | .sms t _ map _ inner _ => InnerHyp map inner ∧ IsAscii t ∧ t.length ≤ USIZE_MAX ∧ sortedFrom 1 0 (decode map.mappings)
       ∧ (∀ m ∈ decode map.mappings, SegOK (splitLines t) (adv startPos t).line (adv startPos t).col m) ∧ MapIdxOK map
   | .concat cs => cs.ModeHypsC
   | .replace inner rs => inner.ModeHypC ∧ (∀ r ∈ rs, r.start ≤ r.stop) ∧ (replaceSource inner.src rs).length + 1 < 2 ^ 32
@@ -93,8 +93,11 @@ theorem Src.modeHypC_base : ∀ (s : Src), s.ModeHypC → s.WF ∧ s.PosHyp true
   | .raw .., _ | .rawStr .., _ | .rawBuf .., _ | .orig .., _ => ⟨trivial, trivial, trivial⟩
   | .sms t name map origSrc inner remove, h => by
     simp only [Src.ModeHypC] at h
-    obtain ⟨rfl, ha, hl, _, hseg, hidx⟩ := h
-    exact ⟨textOK_of_ascii t ha hl, ⟨ha, hl, fun _ m hm => (hseg m hm).1⟩, hidx⟩
+    obtain ⟨hinner, ha, hl, _, hseg, hidx⟩ := h
+    refine ⟨textOK_of_ascii t ha hl, ⟨ha, hl, fun _ m hm => (hseg m hm).1⟩, ?_⟩
+    cases inner with
+    | none => exact hidx
+    | some im => exact ⟨hidx, hinner.2⟩
   | .concat cs, h => by
     simp only [Src.ModeHypC] at h
     simpa [Src.WF, Src.PosHyp, Src.IdxHyp] using SrcList.modeHypsC_base cs h
@@ -152,9 +155,13 @@ theorem Src.m3c : ∀ (s : Src), s.ModeHypC → s.ids.Nodup → ∀ (σF σN : S
     exact ⟨streamOriginal_final_sorted t name, streamOriginal_decls t name, streamOriginal_lookEq t name⟩
   | .sms t name map origSrc inner remove, h, _, σF, σN, _, _ => by
     simp only [Src.ModeHypC] at h
-    obtain ⟨rfl, ha, hl, hs, hseg, _⟩ := h
+    obtain ⟨hinner, ha, hl, hs, hseg, _⟩ := h
     simp only [Src.stream, Src.src]
-    exact ⟨streamSM_final_sorted t map hs, streamSM_decls t map, streamSM_lookEq t map ha hl hs hseg⟩
+    cases inner with
+    | none => exact ⟨streamSM_final_sorted t map hs, streamSM_decls t map, streamSM_lookEq t map ha hl hs hseg⟩
+    | some im =>
+      obtain ⟨c1, c2, c3⟩ := streamCombined_m3 t map name origSrc im remove ha hl hs hinner.1 hseg
+      exact ⟨c1, c2, c3⟩
   | .concat .nil, _, _, σF, σN, _, _ => by
     simp only [Src.stream, Src.src, SrcList.srcs]
     exact ⟨by simp [concatStream, concatGo, chunkMs, sortedFrom], rfl, fun j hj => by simp at hj⟩
